@@ -30,6 +30,26 @@ def main() -> None:
     tqdm.tqdm.monitor_interval = 0  # never start tqdm's monitor thread
 
     from vsim import node  # noqa: F401  (seams, simpool, ops come with it)
+    from vsim import ops  # noqa: F401
+
+    warm = os.environ.get("VSIM_ZYGOTE_WARM", "")
+    if warm:
+        # A *warm* zygote additionally performs the lazy imports every real
+        # sqlfluff process performs on its first lint (rule plugins, the named
+        # dialect modules). Import only: no config is loaded, nothing is parsed.
+        from sqlfluff.core.dialects import load_raw_dialect
+        from sqlfluff.core.plugin.host import get_plugin_manager
+        from sqlfluff.core.rules import get_ruleset
+
+        get_plugin_manager()
+        get_ruleset()
+        for d in warm.split(","):
+            if d and d != "rules":
+                load_raw_dialect(d)
+    import gc
+
+    gc.collect()
+    gc.freeze()  # collector bookkeeping only: keeps forks from COW-touching every object
 
     src = os.path.dirname(os.path.dirname(os.path.abspath(sqlfluff.__file__)))
     srv = socket.socket(socket.AF_UNIX, socket.SOCK_STREAM)
